@@ -223,6 +223,13 @@ def handmade(rng, thorough):
     out.append(("size-edge", B.dump_file(W, [b"z" * 60], sizes=[20])))
     rec = B.record(1, 2, 6, b"f\0", 1700000000, 5, b"A" * (1024 - 35), msg_len=100)
     out.append(("witness-unterminated", B.dump_file(W, [rec])))
+    # a function name that fills the entry: with the 16-byte timespec the timestamp / message length then lie up to
+    # 6 bytes behind the entry - behind the chunk buffer when the entry fills it (defect 3b of the code as found)
+    for r in [1024, 1023, 1021, 1017, 200]:
+        for fs in [r - 27, r - 28, r - 29, r - 31, r - 33, r - 34, r - 35, r - 36]:
+            body = struct.pack("<IIBI", 7, 8, 5, fs) + b"A" * (fs - 1) + b"\0"
+            body += b"\1" * (r - len(body))
+            out.append(("witness-name-fills-entry", B.dump_file(W, [body[:r], good])))
     # old format (8-byte time_t), valid and with the 6-byte shortfall of the new format probed
     old = B.record(10, 3, 6, b"fnA\0", 1700000000, 0, b"hello\n\n\0", new=False)
     out.append(("old-format", B.dump_file(W, [old, old], new=False)))
@@ -249,6 +256,13 @@ def handmade(rng, thorough):
         out.append(("arbitrary", bytes(rng.randrange(256) for _ in range(L))))
         out.append(("arbitrary", bytes([rng.choice([0, 0xFF, 0xA1])]) * L))
     out.append(("arbitrary", b"#!/bin/sh\necho this never was a blackbox\n" * 20))
+    # the chunks tile the whole ring (64 entries of 16 words), write_pt inside a payload: after one lap the reader is
+    # back at the first chunk - only the cleared markers end the loop (the termination measure of C15_print_total)
+    e56 = B.record(9, 1, 4, b"fnA\0", 1700000000, 7, b"lap lap lap lap la\0")
+    assert len(e56) == 56
+    tiled = B.dump_file(W, [e56] * 64)
+    out.append(("tiled-ring", B.MARK + B.rb_header(W, 5, 0) + tiled[40:]))
+    out.append(("tiled-ring", B.MARK + B.rb_header(W, 5, 16 * 63) + tiled[40:]))
     # every word a chunk marker: the loop's worst case
     out.append(("all-markers", B.MARK + B.rb_header(W, 0, 1) + struct.pack("<I", B.MAGIC) * W))
     out.append(("all-markers", B.MARK + B.rb_header(W, 1, 2) + struct.pack("<II", 27, B.MAGIC) * (W // 2)))
